@@ -273,7 +273,7 @@ pub fn run_c15(cfg: &Config) -> i32 {
 	}
 
 	// random values: deep shuffles (must be equal) and single mutations (oracle decides)
-	let n = cfg.budget(150_000, 8_000_000);
+	let n = cfg.budget(1_000_000, 20_000_000);
 	let shards = 64usize;
 	let rep = parallel(cfg.threads, shards, |i| {
 		let mut rep = Report::new();
@@ -361,7 +361,7 @@ pub fn run_c15(cfg: &Config) -> i32 {
 
 	// operands that went through object operations (sort applied 0-3 times at every level, rebuilds,
 	// removals and re-insertions) against freshly built permutations of the same content
-	let n = cfg.budget(30_000, 2_000_000);
+	let n = cfg.budget(200_000, 4_000_000);
 	let rep = parallel(cfg.threads, 64, |i| {
 		fn churn(rng: &mut Rng, v: &mut Value) {
 			match v {
@@ -625,7 +625,7 @@ pub fn run_c14(cfg: &Config) -> i32 {
 	let shards = 64usize;
 
 	// (a) generated pairs: a value and near-copies
-	let n = cfg.budget(300_000, 15_000_000);
+	let n = cfg.budget(1_500_000, 30_000_000);
 	let rep = parallel(cfg.threads, shards, |i| {
 		let mut rep = Report::new();
 		let mut rng = Rng::new(seed).fork(0xc14 + i as u64);
@@ -725,7 +725,7 @@ pub fn run_c14(cfg: &Config) -> i32 {
 	}
 
 	// (c) random triples of related values
-	let n = cfg.budget(100_000, 5_000_000);
+	let n = cfg.budget(500_000, 10_000_000);
 	let rep = parallel(cfg.threads, shards, |i| {
 		let mut rep = Report::new();
 		let mut rng = Rng::new(seed).fork(0xc14b + i as u64);
@@ -765,7 +765,7 @@ pub fn run_c14(cfg: &Config) -> i32 {
 	total.merge(rep);
 
 	// (d) same entries through different histories
-	let n = cfg.budget(20_000, 1_000_000);
+	let n = cfg.budget(60_000, 2_000_000);
 	let rep = parallel(cfg.threads, shards, |i| {
 		let mut rep = Report::new();
 		let mut rng = Rng::new(seed).fork(0xc14c + i as u64);
@@ -825,7 +825,7 @@ pub fn run_c14(cfg: &Config) -> i32 {
 
 	// (e) content-only at every point of a history: after each operation the object must be
 	// indistinguishable (==, cmp, hash) from a freshly built object with the same entries
-	let n_ops = cfg.budget(150_000, 6_000_000);
+	let n_ops = cfg.budget(1_000_000, 20_000_000);
 	let rep = parallel(cfg.threads, shards, |i| {
 		use crate::oracle::objmodel::{apply, Fresh, Model};
 		let mut rep = Report::new();
